@@ -394,11 +394,31 @@ Proof.
 Qed.
 Print Assumptions C19_daily_files_hold_one_day_each.
 
+(* ---- the rule forms of the category-filter key: "*seg*" rejects exactly the categories that CONTAIN seg
+   (wherever, also right behind a proper prefix of seg), "name*" exactly those that START with name ---- *)
+Theorem C19_contains_rule_decides_exactly_for_containing_categories : forall seg en cat t,
+  cat_pass [{| r_name := seg; r_kind := KContains; r_type := None; r_enabled := en |}] cat t = false
+  <-> en = false /\ exists a b, cat = a ++ seg ++ b.
+Proof. exact contains_rule_rejects_iff. Qed.
+Print Assumptions C19_contains_rule_decides_exactly_for_containing_categories.
+Theorem C19_prefix_rule_decides_exactly_for_starting_categories : forall nm en cat t,
+  cat_pass [{| r_name := nm; r_kind := KPrefix; r_type := None; r_enabled := en |}] cat t = false
+  <-> en = false /\ exists b, cat = nm ++ b.
+Proof. exact prefix_rule_rejects_iff. Qed.
+Print Assumptions C19_prefix_rule_decides_exactly_for_starting_categories.
+
 (* ---- non-vacuity ---- *)
+Definition ex_contains_rule : crule := {| r_name := qs ".ui."; r_kind := KContains; r_type := None; r_enabled := false |}.
+Example C19_nonvacuous_contains_rule :
+  rules_text [ex_contains_rule] = qs "*.ui.*=false"
+  /\ cat_pass [ex_contains_rule] (qs "app.u.ui.list") Debug = false
+  /\ cat_pass [ex_contains_rule] (qs "app.u.list") Debug = true
+  /\ cat_pass [{| r_name := qs "a"; r_kind := KContains; r_type := None; r_enabled := false |}] (qs "aa") Info = false.
+Proof. vm_compute. repeat split. Qed.
 Definition ex_msg (t : mtype) (cat text : string) : msg :=
   {| m_type := t; m_cat := qs cat; m_text := qs text; m_tid := 0; m_time := qs "14.11.2023 22:13:20"; m_day := 19675 |}.
 Definition ex_ini : ini := {|
-  k_rules := [{| r_name := qs "net"; r_wild := false; r_type := Some Debug; r_enabled := false |}];
+  k_rules := [{| r_name := qs "net"; r_kind := KExact; r_type := Some Debug; r_enabled := false |}];
   k_regexp := None; k_pattern := [PLit (qs "["); PCategory; PLit (qs "] "); PMessage];
   k_stdout := Some true; k_stdout_color := None; k_stderr := None; k_stderr_color := Some true;
   k_platform := None; k_syslog := []; k_path := qs "app.log"; k_max_size := None; k_max_count := None;
